@@ -71,6 +71,7 @@ def run(repo, run, tier):
     acceptance(repo, run)
     step_norm_freshness(repo, run)
     residual_bounds(repo, run)
+    linear_solve_failures_surface(repo, run)
 
 
 # ------------------------------------------------------------------------------------------------
@@ -80,6 +81,7 @@ def _success_tree(fn, name="success"):
     # run over the whole body in source order (loops once)
     bt.run(fn.body)
     return bt
+
 
 
 def _classify_atom(atom_key, leaf, ke, resolve=None):
@@ -462,3 +464,26 @@ def residual_bounds(repo, run):
                                                    "systems that have no solution" % (q, src(cmp_)[:60], src(bound)[:60]))
     if n == 0:
         raise AnalysisError("nonlinear solvers: no residual test found in a success expression")
+
+
+# ------------------------------------------------------------------------------------------------
+def linear_solve_failures_surface(repo, run):
+    """'When it cannot converge it reports failure rather than presenting an arbitrary point as a solution': the dogleg solver obtains its Newton step from the backend's
+    linear solve; at an exactly singular Jacobian that solve RAISES, and the exception is the failure report.  A backend that answers a failed solve with some other
+    vector (a least-squares / pseudo-inverse step) lets the iteration stall at a stationary point of |F|, where the next step is round-off sized and the step-size
+    success tests of the solvers fire."""
+    rid = run.rule("C15.8", "the backend's linear-solve helpers (solve_linear_system implementations) let a failed solve propagate: no `except` handler in them returns a value", floor=1)
+    n = 0
+    for rel, mod in repo.modules.items():
+        if not rel.startswith("desolver/backend/"):
+            continue
+        for fn in [x for x in ast.walk(mod.tree) if isinstance(x, ast.FunctionDef) and "solve" in x.name]:
+            n += 1
+            run.analysed_fn(rel, fn)
+            bad = [r for h in ast.walk(fn) if isinstance(h, ast.ExceptHandler) for b in h.body for r in ast.walk(b) if isinstance(r, ast.Return) and r.value is not None]
+            run.judged(rid, "%s::%s: handlers that return a value: %d" % (rel.split("/")[-1], fn.name, len(bad)), ok=not bad)
+            for r in bad:
+                run.report("C15.8", rel, r, "`%s` answers a failed linear solve with `%s` instead of letting the exception propagate: at an exactly singular Jacobian the built-in dogleg "
+                           "solver then receives a least-squares step, stalls at a stationary point of |F| (not a root), and its step-size tests report success there" % (fn.name, src(r.value)[:60]))
+    if n == 0:
+        raise AnalysisError("no linear-solve helper found in desolver/backend")
